@@ -27,7 +27,14 @@ class LatestScenario(Scenario):
         self.node = node.latest()
         self.sink = self.node.sink(self.make_sink_fn(p["kind"], "S"))
         n = p["n"]
-        if p["nprod"] == 1:
+        if p["nprod"] == 3:
+            # a second, independent latest() pipeline in the same process
+            self.srcB = Stream(asynchronous=True, loop=self.ioloop)
+            self.nodeB = self.srcB.latest()
+            self.sinkB = self.nodeB.sink(self.make_sink_fn("sync", "T"))
+            self.add_producer("p", self.src, list(range(n)), mode="burst")
+            self.add_producer("q", self.srcB, [100, 101], mode="burst")
+        elif p["nprod"] == 1:
             self.add_producer("p", self.src, list(range(n)), mode="burst")
         else:
             self.add_producer("p", self.src, [10 + i for i in range(n - 1)], mode="burst")
@@ -37,10 +44,10 @@ class LatestScenario(Scenario):
         return "latest"
 
     def _arrivals(self):
-        return [e[3] for e in self.log if e[0] == "emit"]
+        return [e[3] for e in self.log if e[0] == "emit" and (self.params["nprod"] != 3 or e[1] == "p")]
 
     def _delivered(self):
-        return [e[3] for e in self.log if e[0] == "in"]
+        return [e[3] for e in self.log if e[0] == "in" and e[1] == "S"]
 
     def check_step(self):
         arr = self._arrivals()
@@ -53,6 +60,11 @@ class LatestScenario(Scenario):
         return None
 
     def check_final(self):
+        if self.params["nprod"] == 3:
+            arrB = [e[3] for e in self.log if e[0] == "emit" and e[1] == "q"]
+            dlB = [e[3] for e in self.log if e[0] == "in" and e[1] == "T"]
+            if any(x not in arrB for x in dlB) or (arrB and (not dlB or dlB[-1] != arrB[-1])) or len(set(dlB)) != len(dlB):
+                return Violation("not-subsequence", "latest", "second-pipeline", dict(arrivals=arrB, delivered=dlB))
         arr = self._arrivals()
         dl = self._delivered()
         if arr and (not dl or dl[-1] != arr[-1]):
@@ -60,16 +72,16 @@ class LatestScenario(Scenario):
             busy = False
             opened = 0
             for e in self.log:
-                if e[0] == "in":
+                if e[0] == "in" and e[1] == "S":
                     opened += 1
-                elif e[0] == "out":
+                elif e[0] == "out" and e[1] == "S":
                     opened -= 1
                 elif e[0] == "emit" and e[3] == arr[-1]:
                     busy = opened > 0
             return Violation("newest-not-delivered", "latest",
                              "arrival-while-busy" if busy else "arrival-while-idle",
                              dict(arrivals=arr, delivered=dl))
-        done = [e[3] for e in self.log if e[0] == "out"]
+        done = [e[3] for e in self.log if e[0] == "out" and e[1] == "S"]
         if self.params["kind"] != "sync" and done != dl:
             return Violation("consumer-not-finished", "latest", "", dict(delivered=dl, finished=done))
         return None
@@ -87,10 +99,13 @@ def plan(ctx):
             for pre in ("none", "map"):
                 jobs.append(((kind, pre, 1, 5), 3))
                 jobs.append(((kind, pre, 2, 4), 3))
+            jobs.append(((kind, "none", 3, 3), 2))
     else:
         for kind in ("future", "native", "gen", "sync"):
             jobs.append(((kind, "none", 1, 4), 2))
             jobs.append(((kind, "map", 2, 3), 2))
+        jobs.append((("future", "none", 3, 3), 1))
+        jobs.append((("native", "none", 3, 2), 2))
     return jobs
 
 
